@@ -1,4 +1,5 @@
 #include "runner.hh"
+#include <cstring>
 #include "monitor.hh"
 #include <unistd.h>
 #include <fcntl.h>
@@ -85,7 +86,16 @@ static std::string on_die_cb(int endkind, const std::string &detail) {
     return "R " + result_line(g_case ? *g_case : dummy_case, o) + "\n";
 }
 
+static void layout_cb(bool skipped) {
+    if (!skipped || !g_out) return;
+    g_out->probes["cfg_relaxed_snode_inside_h_supernode"]++;
+    if (g_sig_suffix.find("@relaxed_snode_inside_h_supernode") != std::string::npos) return;
+    g_sig_suffix += "@relaxed_snode_inside_h_supernode";
+    if (sim::result_fd >= 0) { std::string t = "T " + g_sig_suffix + "\n"; if (write(sim::result_fd, t.data(), t.size()) < 0) {} }
+}
+
 void runner_install() {
+    monitor_layout_cb = layout_cb;
     sim::install();
     sim::on_die = on_die_cb;
     monitor_install();
@@ -620,8 +630,16 @@ std::vector<cld> strip_ld(const std::vector<cld> &b, int n, int ldb, int nrhs) {
     return o;
 }
 
-void fold_outputs(Ctx &x, long info) {
+static uint64_t ld_bits(ld v) { double d = (double)v; uint64_t u; memcpy(&u, &d, sizeof u); return u; }
+void fold_outputs(Ctx &x, long info, const XOut *xo = nullptr) {
     sim::obs((uint64_t)info + 77);
+    if (xo) {   // every scalar and vector the expert driver reports belongs to the observable outcome
+        sim::obs((uint64_t)xo->equed + 1234); sim::obs(ld_bits(xo->rpg)); sim::obs(ld_bits(xo->rcond));
+        for (ld v : xo->ferr) sim::obs(ld_bits(v));
+        for (ld v : xo->berr) sim::obs(ld_bits(v));
+        if (xo->equed == 1 || xo->equed == 3) for (ld v : xo->R) sim::obs(ld_bits(v));
+        if (xo->equed == 2 || xo->equed == 3) for (ld v : xo->C) sim::obs(ld_bits(v));
+    }
     for (int v : x.drv->get_perm_r()) sim::obs((uint64_t)v + 3);
     for (int v : x.drv->get_perm_c()) sim::obs((uint64_t)v + 5);
     sim::obs(x.drv->B_hash()); sim::obs(x.drv->X_hash());
@@ -731,7 +749,7 @@ Outcome run_case(Case &c, const RunnerOpts &ro) {
         case OP_ROUTE_FINALIZE: drv.route_finalize(); break;
         }
         sim::arm_alloc(false);
-        fold_outputs(x, info);
+        fold_outputs(x, info, (op.kind == OP_GSSVX && op.x.lwork != -1 && info >= 0 && info <= n + 1) ? &xo : nullptr);
         sim::RunStats st;
         sim::end_run(st);
         monitor_end_op(out, opi, info);
